@@ -23,6 +23,7 @@ TraceAlg ==
        /\ Logged(e.neg) = Entries(MScale(<<-1, 0>>, A))
        /\ Logged(e.comm) = Entries(MComm(A, B))
        /\ Logged(e.anti) = Entries(MAnti(A, B))
+       /\ Logged(e.selfmul) = Entries(MMul(A, A)) /\ Logged(e.selfadd) = Entries(MAdd(A, A)) /\ Logged(e.selfsub) = {}     \* P *= P, P += P, P -= P
        /\ Logged(e.vec0) = Entries(A) /\ Logged(e.vec1) = Entries(A) /\ Logged(e.vec2) = Entries(MMul(A, B))   \* vector overload, any basis order
        /\ e.commutes = (MComm(A, B) = Zero)
        /\ e.equal = (A = B)
